@@ -717,6 +717,13 @@ def sec_combine(ctx, rng, case):
         bkind = "compatible"
     else:
         bkind, b = _mutate(rng, a)
+    if len(b.keys) >= 2 and rng.random() < 0.45:
+        # the same keys handed over in another order: records are paired up by key, not by position
+        order = [b.keys[i] for i in rng.permutation(len(b.keys))]
+        b2 = RM.RecordsModel(order, b.recs, b.shapes, b.params)
+        b2.bases, b2.dtypes, b2.profile = b.bases, b.dtypes, b.profile
+        b = b2
+        ctx.event("add:b-keys-permuted" if order != list(a.keys) else "add:b-keys-same-order")
     rb, _, _ = build_result(rng, b)
     try:
         want_sum = a.concat(b)
@@ -739,8 +746,11 @@ def sec_combine(ctx, rng, case):
                       mutation=bkind, a=_wit(a), b=_wit(b))
             rs = None
     if rs is not None:
-        _register(rs, want_sum)
         ok = set(rs.records.keys()) == set(want_sum.keys)
+        if ok:
+            # (which operand's key order the sum's columns follow is not documented: take the sum's own)
+            want_sum = RM.RecordsModel(list(rs.records.keys()), want_sum.recs, want_sum.shapes, want_sum.params)
+        _register(rs, want_sum)
         for k in want_sum.keys:
             arr = rs.records.get(k)
             good = _arr_eq(arr, want_sum.record_shape(k), want_sum.recs[k])
@@ -767,6 +777,8 @@ def sec_combine(ctx, rng, case):
             rc, _, _ = build_result(rng, c)
             left, right = (ra + rb) + rc, ra + (rb + rc)
             abc = want_sum.concat(c)
+            if set(left.records.keys()) == set(abc.keys):
+                abc = RM.RecordsModel(list(left.records.keys()), abc.recs, abc.shapes, abc.params)
             _register(left, abc)
             ok = all(_arr_eq(x.records.get(k), abc.record_shape(k), abc.recs[k]) for x in (left, right) for k in abc.keys)
             ctx.check(ok and (left == right) is True, "add==model-concat", "C18:add-associative", "")
